@@ -99,7 +99,7 @@ func init() {
 		hist := stream.GenScripts(opts)
 		joinLen := r.Pick(2, 3)
 		r.Bound = map[string]interface{}{"single_input_history_len": L, "histories": len(hist), "nodes": len(specs) + 4, "join_events_per_side": joinLen}
-		r.Rule = "every valid watermarked changelog (rows (1,1),(1,2),(2,1),(NULL,1); event times {0,1,2}; non-decreasing watermarks {1,2,3}; no late records) up to the length bound through every single-input node, the event-time buffer (exact release order), tumble, max_diff_watermark and the pipeline max_diff_watermark->tumble->group by ON WATERMARK; joins and join->group-by under every interleaving of watermarked per-side scripts (hook H1); state = (node, history prefix); non-trivial = run that forwards a watermark and emits a record with non-zero event time"
+		r.Rule = "every valid watermarked changelog (rows (1,1),(1,2),(2,1),(NULL,1); event times {0,1,2}; non-decreasing watermarks {1,2,3}; no late records) up to the length bound through every single-input node, the event-time buffer (exact release order), tumble, max_diff_watermark and the pipeline max_diff_watermark->tumble->group by ON WATERMARK (event-time key first and second); joins and join->group-by under every interleaving of watermarked per-side scripts (hook H1); state = (node, history prefix); non-trivial = run that forwards a watermark and emits a record with non-zero event time"
 		r.Assume("inputs contain no late records and monotone watermarks", "zero event time means not time-stamped", "hook H1 for the join part")
 
 		type job struct {
@@ -158,6 +158,16 @@ func init() {
 				tb := mustNode(mkTumble(md, 2*time.Second, nil))
 				return nodes.NewCustomTriggerGroupBy([]func() nodes.Aggregate{aggregates.NewCountPrototype()}, []execution.Expression{constInt(1)},
 					[]execution.Expression{col(3), col(0)}, 0, tb, execution.NewWatermarkTriggerPrototype(0))
+			}, h, 0, false})
+		}
+		// the same pipeline with the event-time key in second position (GROUP BY k, window_end): the trigger's pending keys are
+		// then not ordered by their leading component
+		for _, h := range stream.GenScripts(rawOpts) {
+			addJob(job{"pipeline max_diff_watermark->tumble(2s)->group_by(k,window_end) ON WATERMARK", func(src execution.Node) execution.Node {
+				md := mustNode(mkMaxDiff(src, time.Second, nil))
+				tb := mustNode(mkTumble(md, 2*time.Second, nil))
+				return nodes.NewCustomTriggerGroupBy([]func() nodes.Aggregate{aggregates.NewCountPrototype()}, []execution.Expression{constInt(1)},
+					[]execution.Expression{col(0), col(3)}, 1, tb, execution.NewWatermarkTriggerPrototype(1))
 			}, h, 0, false})
 		}
 		// (b) tumble over an already watermarked source whose event time is the ts column
